@@ -16,6 +16,8 @@ CLAIMED.update({
          "bounds: <=2 (quick) / <=3 records per side, bundles of <=1/2 records; ints unbounded symbolic; stub: str(record) for logger.debug"),
  "C05": ("bounded model checking of record normal form: 18 kinds x 4 entry paths x presence masks x every representation of each formal argument; second-value guard for every formal attribute; Literal(lexical, native xsd type) vs native value; set_time; asserted types - z3 decides name aliasing and value equality on every path", "4/C05",
          "bounds: one record + one follow-up call, |local|<=2; xsd:double/dateTime/boolean lexicals and times from catalogues (dateutil/float conversions run concretely); ints via contract int(str(n))==n; not claimed: multi-entity membership compatibility path"),
+ "C12": ("bounded model checking of state isolation: after each of 9 deriving operations a heap check shows no mutable container is reachable from both sides, and for each of 6 follow-up mutations on either side z3-decided comparison shows the other side's content, order, namespaces and default namespace unchanged, on every path", "4/C12",
+         "bounds: source of 2 records (+bundle of 2), |local|<=2, symbolic mutation operands; the shared NamespaceManager of unified() was found and repaired (fix: commit)"),
 })
 NA = {}
 props = [json.loads(l) for l in open(os.path.join(V, "properties.jsonl"))]
